@@ -26,40 +26,49 @@ def location_rules(ctx, P):
     # ---- into_vec / flatten
     f = ctx.fn(E + "into_vec")
     if f:
-        fm = ctx.find_calls(f, r"Iterator>::flat_map")
-        ctx.ob(P + ".into_vec.flat-map", f.key, "flat_map", len(fm) == 1, "%d flat_map calls" % len(fm))
-        for blk, t in fm:
-            ctx.requires(P + ".into_vec.bundle-recurses", f, blk, "flat_map", [r"discr\(self\.kind\)=Multiple$"])
-            src = ctx.expr(f, t["args"][0])
-            ctx.ob(P + ".into_vec.iterates-own-children", f.key, "flat_map source", src.endswith("into_iter((self.kind as Multiple).0)"), "iterates %s" % src)
-            clo = ctx.expr(f, t["args"][1])
-            ctx.ob(P + ".into_vec.passes-locations", f.key, "closure captures self.locations", "closure" in clo and "self.locations" in clo, clo)
+        # one step per child of the bundle, as a flat_map closure or as a loop: the child gets the
+        # bundle's locations in front of its own (prepend_at), is flattened itself, and the results are
+        # concatenated in order
+        hits = ctx.per_element(f, r"Error::prepend_at$")
+        ctx.ob(P + ".into_vec.flat-map", f.key, "one prepend_at per child", len(hits) == 1 and hits[0]["form"] in ("adapter", "loop"), "%s" % [(h["form"], h["source"][:80]) for h in hits])
+        okc = False
+        detail = "no per-child step calls prepend_at exactly once and then recurses into into_vec"
+        for h in hits[:1]:
+            c, pt = h["owner"], h["t"]
+            src = h["source"]
+            ctx.ob(P + ".into_vec.iterates-own-children", f.key, "children iterated", src.endswith("into_iter((self.kind as Multiple).0)"), "iterates %s" % src)
+            site = [blk for blk, t, owner in ctx.find_calls_deep(f, r"Error::prepend_at$")]
+            for blk in site[:1]:
+                ctx.requires(P + ".into_vec.bundle-recurses", f, blk, "per-child step", [r"discr\(self\.kind\)=Multiple$"])
+            a0, a1 = ctx.expr(c, pt["args"][0]), ctx.expr(c, pt["args"][1])
+            ctx.ob(P + ".into_vec.passes-locations", f.key, "prepend_at(child, bundle locations)", "clone(" in a1 and "locations" in a1.replace("self.0", "locations"), a1)
+            rec = ctx.find_calls(c, r"Error::into_vec$")
+            if len(rec) == 1:
+                r0 = ctx.expr(c, rec[0][1]["args"][0])
+                from .C01 import _sources
+                s_, _ = ctx.sym(c)
+                pdest = pt["dest"]["local"]
+                pblk = [b2 for b2, t2 in ctx.find_calls(c, r"Error::prepend_at$")][0]
+                srcs = _sources(c, s_, s_.operand(rec[0][1]["args"][0]))
+                derives = r0.startswith("darling_core::error::Error::prepend_at(") or pdest in srcs
+                child = a0 == "a2" if c is not f else ("Iterator>::next(" in a0 or "as Some).0" in a0)
+                okc = child and derives and c.dominates(pblk, rec[0][0])
+                detail = "prepend_at(%s, %s); into_vec(%s) derives from prepend_at: %s" % (a0[:60], a1[:60], r0[:80], derives)
+                # concatenation in order
+                if c is f:
+                    ext = [(b2, t2) for b2, t2 in ctx.find_calls(f, r"(Extend<.*>>|Vec::<T, A>)::(extend|append)$") if "Error::into_vec(" in ctx.expr(f, t2["args"][1])]
+                    rv = ctx.ret_values(f)
+                    okcoll = len(ext) == 1 and ctx.expr(f, ext[0][1]["args"][0]) in rv
+                    ctx.ob(P + ".into_vec.collects-in-order", f.key, "out.extend(child.into_vec()) in loop order; return out", okcoll, "extend calls %d; returns %s" % (len(ext), [r[:80] for r in rv]))
+                else:
+                    coll = [e for e in ctx.ret_values(f) if "::collect(" in e]
+                    ctx.ob(P + ".into_vec.collects-in-order", f.key, "collect()", len(coll) == 1 and "flat_map" in coll[0], "returns %s" % [e[:100] for e in coll])
+        ctx.ob(P + ".into_vec.child-gets-ancestor-path", f.key, "per child: prepend_at(child, bundle locations) then recurse", okc, detail)
         rs = rets(ctx, f)
         leaf = [(e, pc) for _, e, pc in rs if "box_assume_init_into_vec" in e]
         has_self_array = any(st["r"]["k"] == "aggregate" and st["r"]["agg"] == "array" and [ctx.expr(f, o) for o in st["r"]["ops"]] == ["self"] for _, _, st in f.stmts() if st["k"] == "assign")
-        ctx.ob(P + ".into_vec.leaf-is-singleton", f.key, "vec![self]", len(leaf) == 1 and has_self_array and all(ctx._sat(d, r"discr\(self\.kind\)=\('not-in', \('Multiple',\)\)") for d in leaf[0][1]),
+        ctx.ob(P + ".into_vec.leaf-is-singleton", f.key, "vec![self]", len(leaf) == 1 and has_self_array and all(ctx._sat(d, ("ne", r"^discr\(self\.kind\)$", "Multiple")) for d in leaf[0][1]),
                "leaf arm returns a one-element vector holding self")
-        coll = [e for _, e, pc in rs if "::collect(" in e]
-        ctx.ob(P + ".into_vec.collects-in-order", f.key, "collect()", len(coll) == 1 and "flat_map" in coll[0], "returns %s" % [e[:100] for e in coll])
-        cl = ctx.closures_of(f)
-        okc = False
-        detail = "no closure calls prepend_at exactly once and then recurses into into_vec"
-        for c in cl:
-            pre = ctx.find_calls(c, r"Error::prepend_at$")
-            rec = ctx.find_calls(c, r"Error::into_vec$")
-            if len(pre) == 1 and len(rec) == 1:
-                a0, a1 = ctx.expr(c, pre[0][1]["args"][0]), ctx.expr(c, pre[0][1]["args"][1])
-                r0 = ctx.expr(c, rec[0][1]["args"][0])
-                # the value handed to the recursive call derives from the prepend_at result
-                # (possibly through further `error = error.with_…(..)` steps)
-                from .C01 import _sources
-                s_, _ = ctx.sym(c)
-                pdest = pre[0][1]["dest"]["local"]
-                srcs = _sources(c, s_, s_.operand(rec[0][1]["args"][0]))
-                derives = r0.startswith("darling_core::error::Error::prepend_at(a2") or pdest in srcs
-                okc = a0 == "a2" and "clone(locations)" in a1.replace("self.0", "locations") and derives and c.dominates(pre[0][0], rec[0][0])
-                detail = "prepend_at(%s, %s); into_vec(%s) derives from prepend_at: %s" % (a0, a1, r0[:80], derives)
-        ctx.ob(P + ".into_vec.child-gets-ancestor-path", f.key, "closure: prepend_at(child, bundle locations) then recurse", okc, detail)
     f = ctx.fn(E + "flatten")
     if f:
         rs = ctx.ret_values(f)
@@ -74,7 +83,7 @@ def location_rules(ctx, P):
         ok = len(asg) == 1 and ctx.expr(f, asg[0][2]["r"]) == "a2" and f.dominates(ext[0][0], asg[0][0]) if ext else False
         ctx.ob(P + ".prepend_at.stores-combined", f.key, "self.locations = locations", ok, "assignments %s" % [ctx.expr(f, a[2]["r"]) for a in asg])
         for blk, i, st in asg:
-            ctx.requires(P + ".prepend_at.only-when-nonempty", f, blk, "self.locations = …", [r"is_empty\(a2\)=False"])
+            ctx.requires(P + ".prepend_at.only-when-nonempty", f, blk, "self.locations = …", [("ne", r"^len\(a2\)$", 0)])
         rs = ctx.ret_values(f)
         ctx.ob(P + ".prepend_at.returns-self", f.key, "return", rs == ["self"], "returns %s" % rs)
     f = ctx.fn(E + "at")
@@ -123,7 +132,7 @@ def run(ctx):
         for blk, t in pan:
             ctx.requires("C04.multiple.zero-panics", f, blk, "panic", [r"len\(a1\)=0$"])
         for blk, i, st in agg:
-            ctx.requires("C04.multiple.n-bundles", f, blk, "Multiple", [r"len\(a1\)=\('not-in', \(0, 1\)\)"])
+            ctx.requires("C04.multiple.n-bundles", f, blk, "Multiple", [("ne", r"^len\(a1\)$", 0), ("ne", r"^len\(a1\)$", 1)])
         rs = ctx.ret_values(f)
         ok = any(re.search(r"^\(alloc::vec::Vec::<T, A>::pop\(a1\) as Some\)\.0$", e) for e in rs) and any("Error::new(" in e and "Multiple{a1}" in e for e in rs)
         ctx.ob("C04.multiple.values", f.key, "returns", ok, "returns %s" % rs)
@@ -135,7 +144,7 @@ def run(ctx):
         ok = len(joins) == 1 and "self.locations" in ctx.expr(f, joins[0][1]["args"][0]) and ctx.expr(f, joins[0][1]["args"][1]) == '"/"'
         ctx.ob("C04.display.path-joined-by-slash", f.key, "locations.join(\"/\")", ok, "join(%s)" % [[ctx.expr(f, a) for a in t["args"]] for _, t in joins])
         for blk, t in joins:
-            ctx.requires("C04.display.path-only-when-present", f, blk, "join", [r"is_empty\(self\.locations\)=False"])
+            ctx.requires("C04.display.path-only-when-present", f, blk, "join", [("ne", r"^len\(self\.locations\)$", 0)])
         kinds = ctx.find_calls(f, r"Argument::<'_>::new_display::<.*ErrorKind>")
         ok = len(kinds) == 1 and all(f.dominates(kinds[0][0], b) for b, _ in joins)
         ctx.ob("C04.display.kind-first", f.key, "kind is formatted before the path", ok, "%d kind display calls" % len(kinds))
